@@ -10,7 +10,7 @@ use synth_utils::ribbon_controller::{sample_rate_to_capacity, RibbonController};
 /// the ten rates every run covers, smallest to largest buffer
 pub const RATES: [u32; 10] = [100, 250, 1000, 3000, 10_000, 22_050, 44_100, 48_000, 96_000, 192_000];
 /// all instantiated sample rates (one const-generic instance each)
-pub const ALL_RATES: [u32; 592] = [100, 125, 200, 250, 300, 400, 500, 600, 700, 750, 800, 900, 1000, 1200, 1500, 2000, 2500, 3000, 3500, 4000, 4500, 5000, 5500, 6000, 6500, 7000, 7500, 8000, 8500, 9000, 9500, 10000, 10500, 11000, 11025, 11500, 12000, 12345, 12500, 13000, 13500, 14000, 14500, 15000, 15500, 16000, 16500, 17000, 17500, 18000, 18500, 19000, 19500, 20000, 20500, 21000, 21500, 22000, 22050, 22500, 23000, 23500, 24000, 24500, 25000, 25500, 26000, 26500, 27000, 27500, 28000, 28500, 29000, 29500, 30000, 30500, 31000, 31250, 31500, 32000, 32500, 33000, 33500, 34000, 34500, 35000, 35500, 36000, 36500, 37000, 37500, 38000, 38500, 39000, 39500, 40000, 40500, 41000, 41500, 42000, 42500, 43000, 43500, 44000, 44100, 44500, 45000, 45500, 46000, 46500, 47000, 47500, 48000, 48500, 49000, 49500, 50000, 50500, 51000, 51500, 52000, 52500, 53000, 53500, 54000, 54500, 55000, 55500, 56000, 56500, 57000, 57500, 58000, 58500, 59000, 59500, 60000, 60500, 61000, 61500, 62000, 62500, 63000, 63500, 64000, 64500, 65000, 65500, 65536, 66000, 66500, 67000, 67500, 68000, 68500, 69000, 69500, 70000, 70500, 71000, 71500, 72000, 72500, 73000, 73500, 74000, 74500, 75000, 75500, 76000, 76500, 77000, 77500, 78000, 78500, 79000, 79500, 80000, 80500, 81000, 81500, 82000, 82500, 83000, 83500, 84000, 84500, 85000, 85500, 86000, 86500, 87000, 87500, 88000, 88200, 88500, 89000, 89500, 90000, 90500, 91000, 91500, 92000, 92500, 93000, 93500, 94000, 94500, 95000, 95500, 96000, 96500, 97000, 97500, 98000, 98500, 99000, 99500, 100000, 100500, 101000, 101500, 102000, 102500, 103000, 103500, 104000, 104500, 105000, 105500, 106000, 106500, 107000, 107500, 108000, 108500, 109000, 109500, 110000, 110500, 111000, 111500, 112000, 112500, 113000, 113500, 114000, 114500, 115000, 115500, 116000, 116500, 117000, 117500, 118000, 118500, 119000, 119500, 120000, 120500, 121000, 121500, 122000, 122500, 123000, 123500, 124000, 124500, 125000, 125500, 126000, 126500, 127000, 127500, 128000, 128500, 129000, 129500, 130000, 130500, 131000, 131500, 132000, 132500, 133000, 133500, 134000, 134500, 135000, 135500, 136000, 136500, 137000, 137500, 138000, 138500, 139000, 139500, 140000, 140500, 141000, 141500, 142000, 142500, 143000, 143500, 144000, 144500, 145000, 145500, 146000, 146500, 147000, 147500, 148000, 148500, 149000, 149500, 150000, 150500, 151000, 151500, 152000, 152500, 153000, 153500, 154000, 154500, 155000, 155500, 156000, 156500, 157000, 157500, 158000, 158500, 159000, 159500, 160000, 160500, 161000, 161500, 162000, 162500, 163000, 163500, 164000, 164500, 165000, 165500, 166000, 166500, 167000, 167500, 168000, 168500, 169000, 169500, 170000, 170500, 171000, 171500, 172000, 172500, 173000, 173500, 174000, 174500, 175000, 175500, 176000, 176400, 176500, 177000, 177500, 178000, 178500, 179000, 179500, 180000, 180500, 181000, 181500, 182000, 182500, 183000, 183500, 184000, 184500, 185000, 185500, 186000, 186500, 187000, 187500, 188000, 188500, 189000, 189500, 190000, 190500, 191000, 191500, 192000, 192500, 193000, 193500, 194000, 194500, 195000, 195500, 196000, 196500, 197000, 197500, 198000, 198500, 199000, 199500, 200000, 200500, 201000, 201500, 202000, 202500, 203000, 203500, 204000, 204500, 205000, 205500, 206000, 206500, 207000, 207500, 208000, 208500, 209000, 209500, 210000, 210500, 211000, 211500, 212000, 212500, 213000, 213500, 214000, 214500, 215000, 215500, 216000, 216500, 217000, 217500, 218000, 218500, 219000, 219500, 220000, 220500, 221000, 221500, 222000, 222500, 223000, 223500, 224000, 224500, 225000, 225500, 226000, 226500, 227000, 227500, 228000, 228500, 229000, 229500, 230000, 230500, 231000, 231500, 232000, 232500, 233000, 233500, 234000, 234500, 235000, 235500, 236000, 236500, 237000, 237500, 238000, 238500, 239000, 239500, 240000, 240500, 241000, 241500, 242000, 242500, 243000, 243500, 244000, 244500, 245000, 245500, 246000, 246500, 247000, 247500, 248000, 248500, 249000, 249500, 250000, 250500, 251000, 251500, 252000, 252500, 253000, 253500, 254000, 254500, 255000, 255500, 256000, 256500, 257000, 257500, 258000, 258500, 259000, 259500, 260000, 260500, 261000, 261500, 262000, 262500, 263000, 263500, 264000, 264500, 265000, 265500, 266000, 266500, 267000, 267500, 268000, 268500, 269000, 269500, 270000, 270500, 271000, 271500, 272000, 272500, 273000, 273500, 274000, 274500, 275000, 275500, 276000, 276500, 277000, 277500, 278000, 278500, 279000, 279500, 280000, 280500, 281000, 281500, 282000, 282500, 283000, 283500, 284000, 284500, 285000, 285500, 286000];
+pub const ALL_RATES: [u32; 608] = [100, 125, 133, 199, 200, 250, 300, 333, 400, 466, 500, 600, 666, 700, 750, 800, 900, 999, 1000, 1200, 1499, 1500, 1999, 2000, 2500, 2999, 3000, 3500, 4000, 4500, 5000, 5500, 6000, 6500, 7000, 7500, 8000, 8500, 9000, 9500, 9999, 10000, 10500, 10999, 11000, 11025, 11500, 12000, 12345, 12500, 13000, 13500, 14000, 14500, 15000, 15500, 16000, 16500, 17000, 17500, 18000, 18500, 19000, 19500, 19999, 20000, 20500, 21000, 21500, 22000, 22050, 22500, 23000, 23500, 24000, 24500, 25000, 25500, 26000, 26500, 27000, 27500, 28000, 28500, 29000, 29500, 30000, 30500, 31000, 31250, 31500, 32000, 32500, 33000, 33500, 34000, 34500, 35000, 35500, 36000, 36500, 37000, 37500, 38000, 38500, 39000, 39500, 40000, 40500, 41000, 41500, 42000, 42500, 43000, 43500, 43999, 44000, 44100, 44500, 45000, 45500, 46000, 46500, 47000, 47500, 47999, 48000, 48500, 49000, 49500, 50000, 50500, 51000, 51500, 52000, 52500, 53000, 53500, 54000, 54500, 55000, 55500, 56000, 56500, 57000, 57500, 58000, 58500, 59000, 59500, 60000, 60500, 61000, 61500, 62000, 62500, 63000, 63500, 64000, 64500, 65000, 65500, 65536, 66000, 66500, 67000, 67500, 68000, 68500, 69000, 69500, 70000, 70500, 71000, 71500, 72000, 72500, 73000, 73500, 74000, 74500, 75000, 75500, 76000, 76500, 77000, 77500, 78000, 78500, 79000, 79500, 80000, 80500, 81000, 81500, 82000, 82500, 83000, 83500, 84000, 84500, 85000, 85500, 86000, 86500, 87000, 87500, 88000, 88200, 88500, 89000, 89500, 90000, 90500, 91000, 91500, 92000, 92500, 93000, 93500, 94000, 94500, 95000, 95500, 95999, 96000, 96500, 97000, 97500, 98000, 98500, 99000, 99500, 100000, 100500, 101000, 101500, 102000, 102500, 103000, 103500, 104000, 104500, 105000, 105500, 106000, 106500, 107000, 107500, 108000, 108500, 109000, 109500, 110000, 110500, 111000, 111500, 112000, 112500, 113000, 113500, 114000, 114500, 115000, 115500, 116000, 116500, 117000, 117500, 118000, 118500, 119000, 119500, 120000, 120500, 121000, 121500, 122000, 122500, 123000, 123500, 124000, 124500, 125000, 125500, 126000, 126500, 127000, 127500, 128000, 128500, 129000, 129500, 130000, 130500, 131000, 131500, 132000, 132500, 133000, 133500, 134000, 134500, 135000, 135500, 136000, 136500, 137000, 137500, 138000, 138500, 139000, 139500, 140000, 140500, 141000, 141500, 142000, 142500, 143000, 143500, 144000, 144500, 145000, 145500, 146000, 146500, 147000, 147500, 148000, 148500, 149000, 149500, 150000, 150500, 151000, 151500, 152000, 152500, 153000, 153500, 154000, 154500, 155000, 155500, 156000, 156500, 157000, 157500, 158000, 158500, 159000, 159500, 160000, 160500, 161000, 161500, 162000, 162500, 163000, 163500, 164000, 164500, 165000, 165500, 166000, 166500, 167000, 167500, 168000, 168500, 169000, 169500, 170000, 170500, 171000, 171500, 172000, 172500, 173000, 173500, 174000, 174500, 175000, 175500, 176000, 176400, 176500, 177000, 177500, 178000, 178500, 179000, 179500, 180000, 180500, 181000, 181500, 182000, 182500, 183000, 183500, 184000, 184500, 185000, 185500, 186000, 186500, 187000, 187500, 188000, 188500, 189000, 189500, 190000, 190500, 191000, 191500, 191999, 192000, 192500, 193000, 193500, 194000, 194500, 195000, 195500, 196000, 196500, 197000, 197500, 198000, 198500, 199000, 199500, 200000, 200500, 201000, 201500, 202000, 202500, 203000, 203500, 204000, 204500, 205000, 205500, 206000, 206500, 207000, 207500, 208000, 208500, 209000, 209500, 210000, 210500, 211000, 211500, 212000, 212500, 213000, 213500, 214000, 214500, 215000, 215500, 216000, 216500, 217000, 217500, 218000, 218500, 219000, 219500, 220000, 220500, 221000, 221500, 222000, 222500, 223000, 223500, 224000, 224500, 225000, 225500, 226000, 226500, 227000, 227500, 228000, 228500, 229000, 229500, 230000, 230500, 231000, 231500, 232000, 232500, 233000, 233500, 234000, 234500, 235000, 235500, 236000, 236500, 237000, 237500, 238000, 238500, 239000, 239500, 240000, 240500, 241000, 241500, 242000, 242500, 243000, 243500, 244000, 244500, 245000, 245500, 246000, 246500, 247000, 247500, 248000, 248500, 249000, 249500, 250000, 250500, 251000, 251500, 252000, 252500, 253000, 253500, 254000, 254500, 255000, 255500, 256000, 256500, 257000, 257500, 258000, 258500, 259000, 259500, 260000, 260500, 261000, 261500, 262000, 262500, 263000, 263500, 264000, 264500, 265000, 265500, 266000, 266500, 267000, 267500, 268000, 268500, 269000, 269500, 270000, 270500, 271000, 271500, 272000, 272500, 273000, 273500, 274000, 274500, 275000, 275500, 276000, 276500, 277000, 277500, 278000, 278500, 279000, 279500, 280000, 280500, 281000, 281500, 282000, 282500, 283000, 283500, 284000, 284500, 285000, 285500, 286000];
 
 pub trait Rib {
     fn poll(&mut self, x: f32);
@@ -46,6 +46,16 @@ fn mk_one<const N: usize>(rate: u32, frac: f32, sp: f32, dr: f32, pu: f32) -> Bo
     Box::new(RibbonController::<N>::new(rate as f32 + frac, sp, dr, pu))
 }
 
+#[inline(never)]
+fn mk_cap<const N: usize>(rate: f32, sp: f32, dr: f32, pu: f32) -> Box<dyn Rib> {
+    Box::new(RibbonController::<N>::new(rate, sp, dr, pu))
+}
+
+pub const ROUND_CAPS: [u32; 4] = [64, 256, 1024, 4096];
+/// rounded-up buffers are part of C15/C16 ("all supported ... buffer capacities"); C17 is stated for helper-sized
+/// buffers only, so its workloads never use them
+pub static ROUNDED_CAPS: std::sync::atomic::AtomicBool = std::sync::atomic::AtomicBool::new(false);
+
 macro_rules! mk {
     ($rate:expr, $frac:expr, $sp:expr, $dr:expr, $pu:expr; $($r:literal),*) => {
         match $rate {
@@ -60,7 +70,7 @@ pub fn make(rate: u32, softpot: f32, dropper: f32, pullup: f32) -> Option<Box<dy
 }
 
 pub fn make_frac(rate: u32, frac: f32, softpot: f32, dropper: f32, pullup: f32) -> Option<Box<dyn Rib>> {
-    mk!(rate, frac, softpot, dropper, pullup; 100, 125, 200, 250, 300, 400, 500, 600, 700, 750, 800, 900, 1000, 1200, 1500, 2000, 2500, 3000, 3500, 4000, 4500, 5000, 5500, 6000, 6500, 7000, 7500, 8000, 8500, 9000, 9500, 10000, 10500, 11000, 11025, 11500, 12000, 12345, 12500, 13000, 13500, 14000, 14500, 15000, 15500, 16000, 16500, 17000, 17500, 18000, 18500, 19000, 19500, 20000, 20500, 21000, 21500, 22000, 22050, 22500, 23000, 23500, 24000, 24500, 25000, 25500, 26000, 26500, 27000, 27500, 28000, 28500, 29000, 29500, 30000, 30500, 31000, 31250, 31500, 32000, 32500, 33000, 33500, 34000, 34500, 35000, 35500, 36000, 36500, 37000, 37500, 38000, 38500, 39000, 39500, 40000, 40500, 41000, 41500, 42000, 42500, 43000, 43500, 44000, 44100, 44500, 45000, 45500, 46000, 46500, 47000, 47500, 48000, 48500, 49000, 49500, 50000, 50500, 51000, 51500, 52000, 52500, 53000, 53500, 54000, 54500, 55000, 55500, 56000, 56500, 57000, 57500, 58000, 58500, 59000, 59500, 60000, 60500, 61000, 61500, 62000, 62500, 63000, 63500, 64000, 64500, 65000, 65500, 65536, 66000, 66500, 67000, 67500, 68000, 68500, 69000, 69500, 70000, 70500, 71000, 71500, 72000, 72500, 73000, 73500, 74000, 74500, 75000, 75500, 76000, 76500, 77000, 77500, 78000, 78500, 79000, 79500, 80000, 80500, 81000, 81500, 82000, 82500, 83000, 83500, 84000, 84500, 85000, 85500, 86000, 86500, 87000, 87500, 88000, 88200, 88500, 89000, 89500, 90000, 90500, 91000, 91500, 92000, 92500, 93000, 93500, 94000, 94500, 95000, 95500, 96000, 96500, 97000, 97500, 98000, 98500, 99000, 99500, 100000, 100500, 101000, 101500, 102000, 102500, 103000, 103500, 104000, 104500, 105000, 105500, 106000, 106500, 107000, 107500, 108000, 108500, 109000, 109500, 110000, 110500, 111000, 111500, 112000, 112500, 113000, 113500, 114000, 114500, 115000, 115500, 116000, 116500, 117000, 117500, 118000, 118500, 119000, 119500, 120000, 120500, 121000, 121500, 122000, 122500, 123000, 123500, 124000, 124500, 125000, 125500, 126000, 126500, 127000, 127500, 128000, 128500, 129000, 129500, 130000, 130500, 131000, 131500, 132000, 132500, 133000, 133500, 134000, 134500, 135000, 135500, 136000, 136500, 137000, 137500, 138000, 138500, 139000, 139500, 140000, 140500, 141000, 141500, 142000, 142500, 143000, 143500, 144000, 144500, 145000, 145500, 146000, 146500, 147000, 147500, 148000, 148500, 149000, 149500, 150000, 150500, 151000, 151500, 152000, 152500, 153000, 153500, 154000, 154500, 155000, 155500, 156000, 156500, 157000, 157500, 158000, 158500, 159000, 159500, 160000, 160500, 161000, 161500, 162000, 162500, 163000, 163500, 164000, 164500, 165000, 165500, 166000, 166500, 167000, 167500, 168000, 168500, 169000, 169500, 170000, 170500, 171000, 171500, 172000, 172500, 173000, 173500, 174000, 174500, 175000, 175500, 176000, 176400, 176500, 177000, 177500, 178000, 178500, 179000, 179500, 180000, 180500, 181000, 181500, 182000, 182500, 183000, 183500, 184000, 184500, 185000, 185500, 186000, 186500, 187000, 187500, 188000, 188500, 189000, 189500, 190000, 190500, 191000, 191500, 192000, 192500, 193000, 193500, 194000, 194500, 195000, 195500, 196000, 196500, 197000, 197500, 198000, 198500, 199000, 199500, 200000, 200500, 201000, 201500, 202000, 202500, 203000, 203500, 204000, 204500, 205000, 205500, 206000, 206500, 207000, 207500, 208000, 208500, 209000, 209500, 210000, 210500, 211000, 211500, 212000, 212500, 213000, 213500, 214000, 214500, 215000, 215500, 216000, 216500, 217000, 217500, 218000, 218500, 219000, 219500, 220000, 220500, 221000, 221500, 222000, 222500, 223000, 223500, 224000, 224500, 225000, 225500, 226000, 226500, 227000, 227500, 228000, 228500, 229000, 229500, 230000, 230500, 231000, 231500, 232000, 232500, 233000, 233500, 234000, 234500, 235000, 235500, 236000, 236500, 237000, 237500, 238000, 238500, 239000, 239500, 240000, 240500, 241000, 241500, 242000, 242500, 243000, 243500, 244000, 244500, 245000, 245500, 246000, 246500, 247000, 247500, 248000, 248500, 249000, 249500, 250000, 250500, 251000, 251500, 252000, 252500, 253000, 253500, 254000, 254500, 255000, 255500, 256000, 256500, 257000, 257500, 258000, 258500, 259000, 259500, 260000, 260500, 261000, 261500, 262000, 262500, 263000, 263500, 264000, 264500, 265000, 265500, 266000, 266500, 267000, 267500, 268000, 268500, 269000, 269500, 270000, 270500, 271000, 271500, 272000, 272500, 273000, 273500, 274000, 274500, 275000, 275500, 276000, 276500, 277000, 277500, 278000, 278500, 279000, 279500, 280000, 280500, 281000, 281500, 282000, 282500, 283000, 283500, 284000, 284500, 285000, 285500, 286000)
+    mk!(rate, frac, softpot, dropper, pullup; 100, 125, 133, 199, 200, 250, 300, 333, 400, 466, 500, 600, 666, 700, 750, 800, 900, 999, 1000, 1200, 1499, 1500, 1999, 2000, 2500, 2999, 3000, 3500, 4000, 4500, 5000, 5500, 6000, 6500, 7000, 7500, 8000, 8500, 9000, 9500, 9999, 10000, 10500, 10999, 11000, 11025, 11500, 12000, 12345, 12500, 13000, 13500, 14000, 14500, 15000, 15500, 16000, 16500, 17000, 17500, 18000, 18500, 19000, 19500, 19999, 20000, 20500, 21000, 21500, 22000, 22050, 22500, 23000, 23500, 24000, 24500, 25000, 25500, 26000, 26500, 27000, 27500, 28000, 28500, 29000, 29500, 30000, 30500, 31000, 31250, 31500, 32000, 32500, 33000, 33500, 34000, 34500, 35000, 35500, 36000, 36500, 37000, 37500, 38000, 38500, 39000, 39500, 40000, 40500, 41000, 41500, 42000, 42500, 43000, 43500, 43999, 44000, 44100, 44500, 45000, 45500, 46000, 46500, 47000, 47500, 47999, 48000, 48500, 49000, 49500, 50000, 50500, 51000, 51500, 52000, 52500, 53000, 53500, 54000, 54500, 55000, 55500, 56000, 56500, 57000, 57500, 58000, 58500, 59000, 59500, 60000, 60500, 61000, 61500, 62000, 62500, 63000, 63500, 64000, 64500, 65000, 65500, 65536, 66000, 66500, 67000, 67500, 68000, 68500, 69000, 69500, 70000, 70500, 71000, 71500, 72000, 72500, 73000, 73500, 74000, 74500, 75000, 75500, 76000, 76500, 77000, 77500, 78000, 78500, 79000, 79500, 80000, 80500, 81000, 81500, 82000, 82500, 83000, 83500, 84000, 84500, 85000, 85500, 86000, 86500, 87000, 87500, 88000, 88200, 88500, 89000, 89500, 90000, 90500, 91000, 91500, 92000, 92500, 93000, 93500, 94000, 94500, 95000, 95500, 95999, 96000, 96500, 97000, 97500, 98000, 98500, 99000, 99500, 100000, 100500, 101000, 101500, 102000, 102500, 103000, 103500, 104000, 104500, 105000, 105500, 106000, 106500, 107000, 107500, 108000, 108500, 109000, 109500, 110000, 110500, 111000, 111500, 112000, 112500, 113000, 113500, 114000, 114500, 115000, 115500, 116000, 116500, 117000, 117500, 118000, 118500, 119000, 119500, 120000, 120500, 121000, 121500, 122000, 122500, 123000, 123500, 124000, 124500, 125000, 125500, 126000, 126500, 127000, 127500, 128000, 128500, 129000, 129500, 130000, 130500, 131000, 131500, 132000, 132500, 133000, 133500, 134000, 134500, 135000, 135500, 136000, 136500, 137000, 137500, 138000, 138500, 139000, 139500, 140000, 140500, 141000, 141500, 142000, 142500, 143000, 143500, 144000, 144500, 145000, 145500, 146000, 146500, 147000, 147500, 148000, 148500, 149000, 149500, 150000, 150500, 151000, 151500, 152000, 152500, 153000, 153500, 154000, 154500, 155000, 155500, 156000, 156500, 157000, 157500, 158000, 158500, 159000, 159500, 160000, 160500, 161000, 161500, 162000, 162500, 163000, 163500, 164000, 164500, 165000, 165500, 166000, 166500, 167000, 167500, 168000, 168500, 169000, 169500, 170000, 170500, 171000, 171500, 172000, 172500, 173000, 173500, 174000, 174500, 175000, 175500, 176000, 176400, 176500, 177000, 177500, 178000, 178500, 179000, 179500, 180000, 180500, 181000, 181500, 182000, 182500, 183000, 183500, 184000, 184500, 185000, 185500, 186000, 186500, 187000, 187500, 188000, 188500, 189000, 189500, 190000, 190500, 191000, 191500, 191999, 192000, 192500, 193000, 193500, 194000, 194500, 195000, 195500, 196000, 196500, 197000, 197500, 198000, 198500, 199000, 199500, 200000, 200500, 201000, 201500, 202000, 202500, 203000, 203500, 204000, 204500, 205000, 205500, 206000, 206500, 207000, 207500, 208000, 208500, 209000, 209500, 210000, 210500, 211000, 211500, 212000, 212500, 213000, 213500, 214000, 214500, 215000, 215500, 216000, 216500, 217000, 217500, 218000, 218500, 219000, 219500, 220000, 220500, 221000, 221500, 222000, 222500, 223000, 223500, 224000, 224500, 225000, 225500, 226000, 226500, 227000, 227500, 228000, 228500, 229000, 229500, 230000, 230500, 231000, 231500, 232000, 232500, 233000, 233500, 234000, 234500, 235000, 235500, 236000, 236500, 237000, 237500, 238000, 238500, 239000, 239500, 240000, 240500, 241000, 241500, 242000, 242500, 243000, 243500, 244000, 244500, 245000, 245500, 246000, 246500, 247000, 247500, 248000, 248500, 249000, 249500, 250000, 250500, 251000, 251500, 252000, 252500, 253000, 253500, 254000, 254500, 255000, 255500, 256000, 256500, 257000, 257500, 258000, 258500, 259000, 259500, 260000, 260500, 261000, 261500, 262000, 262500, 263000, 263500, 264000, 264500, 265000, 265500, 266000, 266500, 267000, 267500, 268000, 268500, 269000, 269500, 270000, 270500, 271000, 271500, 272000, 272500, 273000, 273500, 274000, 274500, 275000, 275500, 276000, 276500, 277000, 277500, 278000, 278500, 279000, 279500, 280000, 280500, 281000, 281500, 282000, 282500, 283000, 283500, 284000, 284500, 285000, 285500, 286000)
 }
 
 #[derive(Clone, Copy, Debug)]
@@ -71,11 +81,26 @@ pub struct Cfg {
     pub pullup: f32,
     /// fractional part of the sample rate passed to the constructor (the buffer is sized for the integer part)
     pub frac: f32,
+    /// buffer capacity if it is not the one `sample_rate_to_capacity` gives (0 = the helper's); only larger ones
+    /// ("rounded up to a convenient size") are supported: a smaller buffer cannot hold the discarded tail
+    pub cap: u32,
 }
 
 impl Cfg {
     pub fn capacity(&self) -> usize {
-        sample_rate_to_capacity(self.rate)
+        if self.cap != 0 { self.cap as usize } else { sample_rate_to_capacity(self.rate) }
+    }
+    /// the real controller for this configuration
+    pub fn build(&self) -> Option<Box<dyn Rib>> {
+        let r = self.rate as f32 + self.frac;
+        match self.cap {
+            0 => make_frac(self.rate, self.frac, self.softpot, self.dropper, self.pullup),
+            64 => Some(mk_cap::<64>(r, self.softpot, self.dropper, self.pullup)),
+            256 => Some(mk_cap::<256>(r, self.softpot, self.dropper, self.pullup)),
+            1024 => Some(mk_cap::<1024>(r, self.softpot, self.dropper, self.pullup)),
+            4096 => Some(mk_cap::<4096>(r, self.softpot, self.dropper, self.pullup)),
+            _ => None,
+        }
     }
     /// settling samples: floor(fs * 1 ms); the first press needs capacity + max(ignore-1, 0) samples
     pub fn ignore(&self) -> usize {
@@ -123,6 +148,7 @@ impl History {
             .set("dropper", format!("{}  # {}", f(self.cfg.dropper), self.cfg.dropper))
             .set("pullup", format!("{}  # {}", f(self.cfg.pullup), self.cfg.pullup))
             .set("frac", format!("{}  # {}", f(self.cfg.frac), self.cfg.frac))
+            .set("cap", self.cfg.cap.to_string())
             .set("strict", (self.strict as u8).to_string());
         for (i, op) in self.ops.iter().enumerate() {
             if i > upto_op {
@@ -139,7 +165,7 @@ impl History {
         t.to_text()
     }
     pub fn parse(t: &Text) -> Result<Self, String> {
-        let cfg = Cfg { rate: pu(t.get("rate")?)? as u32, softpot: pf(t.get("softpot")?)?, dropper: pf(t.get("dropper")?)?, pullup: pf(t.get("pullup")?)?, frac: t.get_opt("frac").map(pf).transpose()?.unwrap_or(0.0) };
+        let cfg = Cfg { rate: pu(t.get("rate")?)? as u32, softpot: pf(t.get("softpot")?)?, dropper: pf(t.get("dropper")?)?, pullup: pf(t.get("pullup")?)?, frac: t.get_opt("frac").map(pf).transpose()?.unwrap_or(0.0), cap: t.get_opt("cap").map(pu).transpose()?.unwrap_or(0) as u32 };
         let strict = pu(t.get("strict")?)? != 0;
         let mut ops = Vec::new();
         for l in &t.ops {
@@ -197,7 +223,7 @@ pub fn execute(h: &History, want: &str, rep: &mut Report) -> Option<Violation> {
             }
         };
     }
-    let mut rib = match call!(make_frac(cfg.rate, cfg.frac, cfg.softpot, cfg.dropper, cfg.pullup), 0, None) {
+    let mut rib = match call!(cfg.build(), 0, None) {
         Some(r) => r,
         None => return None,
     };
@@ -449,7 +475,7 @@ pub fn shrink(h: &History, want: &str, v: Violation) -> Violation {
 pub fn pick_cfg(r: &mut Rng, rates: &[u32]) -> Cfg {
     let rate = *r.pick(rates);
     if r.chance(0.3) {
-        return Cfg { rate, softpot: 20e3, dropper: 820.0, pullup: 1e6, frac: 0.0 };
+        return Cfg { rate, softpot: 20e3, dropper: 820.0, pullup: 1e6, frac: 0.0, cap: 0 };
     }
     let softpot = r.log_uniform(5e3, 100e3) as f32;
     let dropper = (softpot as f64 * r.log_uniform(0.005, 0.2)) as f32;
@@ -458,7 +484,9 @@ pub fn pick_cfg(r: &mut Rng, rates: &[u32]) -> Cfg {
     let pullup = if r.chance(0.08) { *r.pick(&[1e8f32, 1e9, 1e10]) } else { pullup.max(softpot + dropper) };
     // a non-integer sample rate (only where the f32 sum keeps the integer part: below 2^23)
     let frac = if r.chance(0.15) { *r.pick(&[0.4f32, 0.6, 0.999, 0.5, 0.001]) } else { 0.0 };
-    Cfg { rate, softpot, dropper, pullup, frac }
+    // a buffer rounded up to a convenient size instead of the helper's exact one
+    let cap = if r.chance(0.1) && ROUNDED_CAPS.load(std::sync::atomic::Ordering::Relaxed) { ROUND_CAPS.iter().copied().filter(|c| *c as usize > sample_rate_to_capacity(rate)).nth(r.below(2) as usize).unwrap_or(0) } else { 0 };
+    Cfg { rate, softpot, dropper, pullup, frac, cap }
 }
 
 /// a sample level safely inside the in-range interval / safely out of range
@@ -530,6 +558,10 @@ fn press(r: &mut Rng, cfg: &Cfg, len: u64, ops: &mut Vec<Op>) {
 
 pub fn gen_history(r: &mut Rng, rates: &[u32], strict: bool, n_events: usize) -> History {
     let cfg = pick_cfg(r, rates);
+    gen_history_cfg(r, cfg, strict, n_events)
+}
+
+pub fn gen_history_cfg(r: &mut Rng, cfg: Cfg, strict: bool, n_events: usize) -> History {
     let l = cfg.run_len() as u64;
     let mut ops = Vec::new();
     for _ in 0..n_events {
@@ -565,6 +597,10 @@ pub fn gen_history(r: &mut Rng, rates: &[u32], strict: bool, n_events: usize) ->
 /// trains of short taps whose lengths add up to far more than the capture time
 pub fn gen_tap_train(r: &mut Rng, rates: &[u32], strict: bool) -> History {
     let cfg = pick_cfg(r, rates);
+    gen_tap_train_cfg(r, cfg, strict)
+}
+
+pub fn gen_tap_train_cfg(r: &mut Rng, cfg: Cfg, strict: bool) -> History {
     let l = cfg.run_len() as u64;
     let mut ops = Vec::new();
     let taps = 3 + r.below(12);
@@ -598,8 +634,8 @@ pub enum Region {
 /// value() after the last sample. Returns (pressing, value_base, value_perturbed).
 pub fn twin(cfg: &Cfg, samples: &[f32], j: usize, delta: f32) -> Result<(bool, f32, f32), String> {
     guard(|| {
-        let mut a = make(cfg.rate, cfg.softpot, cfg.dropper, cfg.pullup).unwrap();
-        let mut b = make(cfg.rate, cfg.softpot, cfg.dropper, cfg.pullup).unwrap();
+        let mut a = cfg.build().unwrap();
+        let mut b = cfg.build().unwrap();
         for (i, s) in samples.iter().enumerate() {
             a.poll(*s);
             b.poll(if i == j { *s + delta } else { *s });
@@ -616,6 +652,8 @@ fn probe_text(cfg: &Cfg, samples: &[f32], j: usize, delta: f32, region: Region) 
         .set("softpot", f(cfg.softpot))
         .set("dropper", f(cfg.dropper))
         .set("pullup", f(cfg.pullup))
+        .set("frac", f(cfg.frac))
+        .set("cap", cfg.cap.to_string())
         .set("perturbed_index", j.to_string())
         .set("delta", f(delta))
         .set("region", format!("{:?}", region));
@@ -683,7 +721,7 @@ pub fn probes(ctx: &Ctx, rates: &[u32]) -> Report {
         for rep_i in rep_i0..(rep_i0 + 1) {
             let mut cfg = pick_cfg(&mut r, &[rate]);
             if rep_i == 0 {
-                cfg = Cfg { rate, softpot: 20e3, dropper: 820.0, pullup: 1e6, frac: 0.0 };
+                cfg = Cfg { rate, softpot: 20e3, dropper: 820.0, pullup: 1e6, frac: 0.0, cap: 0 };
             }
             let (cap, l, discard, ignore) = (cfg.capacity(), cfg.run_len(), cfg.discard(), cfg.ignore());
             let b = cfg.boundary() as f32;
@@ -759,6 +797,7 @@ pub fn probes(ctx: &Ctx, rates: &[u32]) -> Report {
 pub fn run(ctx: &Ctx, prop: &str) -> Report {
     let mut rep = Report::new();
     let small = ctx.tier == Tier::Small;
+    ROUNDED_CAPS.store(prop == "C15" || prop == "C16", std::sync::atomic::Ordering::Relaxed);
     // the ten standard rates plus a seed-dependent selection of the other instantiated rates (all of them in thorough)
     let rates: Vec<u32> = if small {
         vec![100, 1000, 3000]
@@ -814,7 +853,7 @@ pub fn run(ctx: &Ctx, prop: &str) -> Report {
         let mut rep = Report::new();
         let rate = long_rates[j];
         let mut r = Rng::derive(ctx.seed, "ribbon.long_press", rate as u64);
-        let cfg = if j % 2 == 0 { Cfg { rate, softpot: 20e3, dropper: 820.0, pullup: 1e6, frac: 0.0 } } else { pick_cfg(&mut r, &[rate]) };
+        let cfg = if j % 2 == 0 { Cfg { rate, softpot: 20e3, dropper: 820.0, pullup: 1e6, frac: 0.0, cap: 0 } } else { pick_cfg(&mut r, &[rate]) };
         let b = (cfg.boundary() - 2e-5) as f32;
         let total = ctx.budget(400, 400_000, 4_000_000);
         let segs = ctx.budget(20, 2_000, 20_000);
@@ -843,7 +882,7 @@ pub fn run(ctx: &Ctx, prop: &str) -> Report {
         let r = par_shards(ctx, jobs.len(), |j| {
             let mut rep = Report::new();
             let (rate, len) = jobs[j];
-            let cfg = Cfg { rate, softpot: 20e3, dropper: 820.0, pullup: 1e6, frac: 0.0 };
+            let cfg = Cfg { rate, softpot: 20e3, dropper: 820.0, pullup: 1e6, frac: 0.0, cap: 0 };
             let bb = cfg.boundary() as f32;
             let ops = vec![Op::Poll(0.25 * bb, 50), Op::Poll(1.0, 2), Op::Poll(0.75 * bb, len), Op::ReadPressed, Op::Poll(0.5 * bb, 40), Op::Poll(1.0, 2), Op::ReadReleased, Op::Poll(0.1 * bb, 30), Op::Poll(1.0, 1)];
             let h = History { cfg, strict: false, ops };
@@ -859,7 +898,7 @@ pub fn run(ctx: &Ctx, prop: &str) -> Report {
         let r = par_shards(ctx, 2, |j| {
             let mut rep = Report::new();
             let rate = [100u32, 250][j];
-            let cfg = Cfg { rate, softpot: 20e3, dropper: 820.0, pullup: 1e6, frac: 0.0 };
+            let cfg = Cfg { rate, softpot: 20e3, dropper: 820.0, pullup: 1e6, frac: 0.0, cap: 0 };
             let l = cfg.run_len() as u64;
             let mut ops = Vec::new();
             for k in 0..70_000u32 {
@@ -890,7 +929,7 @@ pub fn run(ctx: &Ctx, prop: &str) -> Report {
             let mut r = Rng::derive(ctx.seed, "ribbon.top_of_range", rate as u64);
             let n = if rate <= 20_000 { ctx.budget(1, 4, 16) } else { ctx.budget(1, 1, 3) };
             for k in 0..n {
-                let mut cfg = if k == 0 { Cfg { rate, softpot: 20e3, dropper: 820.0, pullup: 1e6, frac: 0.0 } } else { pick_cfg(&mut r, &[rate]) };
+                let mut cfg = if k == 0 { Cfg { rate, softpot: 20e3, dropper: 820.0, pullup: 1e6, frac: 0.0, cap: 0 } } else { pick_cfg(&mut r, &[rate]) };
                 cfg.pullup = [1e9f32, 1e12, 1e7, 1e10][k as usize % 4];
                 if let Some(x) = exact_boundary(&cfg) {
                     let top = f32::from_bits(x.to_bits() - 1 - (k as u32 % 3));
@@ -904,6 +943,28 @@ pub fn run(ctx: &Ctx, prop: &str) -> Report {
             rep
         });
         stage("ribbon.top_of_range", r, &mut rep, t0);
+    }
+    // (a5) buffers rounded up to a convenient size (64, 256, 1024, 4096 slots) at rates whose helper capacity is
+    // smaller: the press needs the whole buffer, not the helper's count
+    {
+        let t0 = std::time::Instant::now();
+        let pairs: Vec<(u32, u32)> = if small { vec![(1000, 64), (100, 64)] } else { vec![(100, 64), (1000, 64), (3000, 64), (3000, 256), (10_000, 256), (14_000, 256), (10_000, 1024), (44_100, 1024), (48_000, 1024), (48_000, 4096), (96_000, 4096), (192_000, 4096), (240_000, 4096)] };
+        let per = ctx.budget(1, 6, 60) as usize;
+        let r = par_shards(ctx, pairs.len(), |j| {
+            let mut rep = Report::new();
+            let (rate, cap) = pairs[j];
+            let mut r = Rng::derive(ctx.seed, "ribbon.rounded_up", rate as u64 * 10_000 + cap as u64);
+            for k in 0..per {
+                let strict = k % 2 == 0;
+                let mut cfg = pick_cfg(&mut r, &[rate]);
+                cfg.cap = cap;
+                let h = if k % 3 == 0 { gen_tap_train_cfg(&mut r, cfg, strict) } else { gen_history_cfg(&mut r, cfg, strict, 6) };
+                run_and_record(&h, prop, &mut rep, false);
+                rep.count("ribbon.rounded_up_buffer_histories", 1);
+            }
+            rep
+        });
+        stage("ribbon.rounded_up_buffers", r, &mut rep, t0);
     }
     // (b) many more histories on the cheap (small-buffer) rates
     let t0 = std::time::Instant::now();
@@ -933,6 +994,7 @@ pub fn run(ctx: &Ctx, prop: &str) -> Report {
         rep.floor("ribbon.run_reached_exact_length", 1000);
         rep.floor("ribbon.glitches_1_2_samples", 100);
         rep.floor("ribbon.top_of_range_presses", 50);
+        rep.floor("ribbon.rounded_up_buffer_histories", 50);
         for rate in RATES {
             rep.floor(&format!("ribbon.histories.rate{}", rate), 5);
         }
@@ -953,7 +1015,7 @@ pub fn run(ctx: &Ctx, prop: &str) -> Report {
 
 pub fn replay(t: &Text, want: &str, rep: &mut Report) -> Result<Option<Violation>, String> {
     if t.get("module")? == "ribbon-probe" {
-        let cfg = Cfg { rate: pu(t.get("rate")?)? as u32, softpot: pf(t.get("softpot")?)?, dropper: pf(t.get("dropper")?)?, pullup: pf(t.get("pullup")?)?, frac: 0.0 };
+        let cfg = Cfg { rate: pu(t.get("rate")?)? as u32, softpot: pf(t.get("softpot")?)?, dropper: pf(t.get("dropper")?)?, pullup: pf(t.get("pullup")?)?, frac: t.get_opt("frac").map(pf).transpose()?.unwrap_or(0.0), cap: t.get_opt("cap").map(pu).transpose()?.unwrap_or(0) as u32 };
         let j = pu(t.get("perturbed_index")?)? as usize;
         let delta = pf(t.get("delta")?)?;
         let region = match t.get("region")? {
